@@ -564,7 +564,7 @@ func init() {
 			c.Broken("stream stress: %v", err)
 			return
 		}
-		st2, err := runSubscriberRespawnStress(core.Pick(c, 4000, 40000))
+		st2, err := runSubscriberRespawnStress(core.Pick(c, 25000, 250000))
 		if err != nil {
 			c.Broken("subscriber respawn stress: %v", err)
 			return
